@@ -66,6 +66,8 @@ func Spec() *run.Spec {
 		"field_block_orders":           2, // distinct block completion orders of AddFieldParallel
 		"race_gomaxprocs":              3,
 		"march_parallel_compared":      10,
+		"many_block_parallel_marches":  6,
+		"many_block_blocks_over_cpus":  2,
 		"field_parallel_compared":      10,
 		"field_parallel2_compared":     10,
 		"scan_entry_points":            14,
@@ -120,10 +122,10 @@ func Spec() *run.Spec {
 			}, Run: scanLarge, Batch: 15, CPUBudgetS: 60, Env: plainEnv},
 			{Name: "field", Cases: func(t string) int {
 				if t == "thorough" {
-					return 300
+					return 300 + manyBlockCases(t)
 				}
-				return 24
-			}, Run: fieldCase, Batch: 2, CPUBudgetS: 240, Parallel: 12, Env: plainEnv},
+				return 24 + manyBlockCases(t)
+			}, Run: fieldCase, Batch: 1, CPUBudgetS: 900, Parallel: 12, Env: plainEnv},
 			{Name: "race-scan", Race: true, Cases: func(t string) int {
 				if t == "thorough" {
 					return 900
